@@ -74,7 +74,8 @@ def run(ctx: Ctx) -> int:
                             ("X 0 3 4 8\nM 0 1 2 3 4 5 6 7 8\n" + "\n".join(f"DETECTOR rec[-{9 - k}]" for k in range(9)) + "\nOBSERVABLE_INCLUDE(0) rec[-1]\nOBSERVABLE_INCLUDE(1) rec[-2]",
                              [1, 0, 0, 1, 1, 0, 0, 0, 1], [1, 0])]:
         try:
-            smp = tsim.Circuit(text).compile_detector_sampler(seed=3)
+            c_obj = tsim.Circuit(text)
+            smp = c_obj.compile_detector_sampler(seed=3)
             plain = np.asarray(smp.sample(3)).astype(int)
             app = np.asarray(smp.sample(3, append_observables=True)).astype(int)
             pre = np.asarray(smp.sample(3, prepend_observables=True)).astype(int)
@@ -107,6 +108,34 @@ def run(ctx: Ctx) -> int:
                 ctx.violation(f"detector-columns-{k_}:" + text.replace("\n", ";")[:50], f"{k_}: rows {got[k_]}, expected {want[k_]} (detectors then observables 0..K-1)",
                               {"text": text, "det": True, "flag": k_})
                 break
+        # a compiled sampler is a snapshot: changing the circuit object afterwards (more detectors, observables, measurements; pop) does not
+        # change what the sampler returns
+        try:
+            c_obj.append_from_stim_program_text("M 0\nDETECTOR rec[-1]\nDETECTOR rec[-1] rec[-1]\nOBSERVABLE_INCLUDE(5) rec[-1]")
+            c_obj += tsim.Circuit("DETECTOR rec[-1]")
+            later = {"plain": np.asarray(smp.sample(3)).astype(int).tolist(),
+                     "append": np.asarray(smp.sample(3, append_observables=True)).astype(int).tolist(),
+                     "prepend": np.asarray(smp.sample(3, prepend_observables=True)).astype(int).tolist()}
+            sep2 = smp.sample(3, separate_observables=True)
+            later["separate-detectors"], later["separate-observables"] = np.asarray(sep2[0]).astype(int).tolist(), np.asarray(sep2[1]).astype(int).tolist()
+            c_obj.pop()
+            c_obj.pop()
+            later2 = np.asarray(smp.sample(3, append_observables=True)).astype(int).tolist()
+            ctx.count(("cols-after-mutation", text), bucket="sampler-is-a-snapshot-of-the-circuit")
+            for k_ in got:
+                if later[k_] != got[k_] and not (np.asarray(got[k_]).size == 0 and np.asarray(later[k_]).size == 0):
+                    ctx.violation(f"detector-columns-after-circuit-change-{k_}:" + text.replace("\n", ";")[:40],
+                                  f"{k_}: a detector sampler compiled BEFORE the circuit object was extended returns {later[k_]} afterwards, {got[k_]} before",
+                                  {"text": text, "det": True, "flag": k_ + " after the circuit object was changed"})
+                    break
+            else:
+                if later2 != got["append"]:
+                    ctx.violation("detector-columns-after-circuit-pop:" + text.replace("\n", ";")[:40],
+                                  f"append: a detector sampler returns {later2} after pop() on its circuit object, {got['append']} before",
+                                  {"text": text, "det": True, "flag": "append after pop"})
+        except Exception as e:
+            ctx.violation("detector-columns-after-circuit-change-raises:" + text.replace("\n", ";")[:40], f"sampling after the circuit object was changed raised {e!r}",
+                          {"text": text, "det": True})
     ctx.cov.update({"stats": stats})
     if ctx.broken and not ctx.violations:
         report_broken_without_input(ctx)
